@@ -45,7 +45,7 @@ def run(rep):
         facts["rs_i = c*m_i + cs_i"] = S.same(rs, vec_affine(c, msgv, cs, "N"))
         ccan = S.canon(cs)
         opts = ("E", S.canon(arg(3)))
-        facts["cs_i = Some(x) ? x : fresh"] = ccan[0] == "V" and ccan[1][0] == "ite" and contains_term(ccan[1], opts) and contains_head(ccan[1], "rand")
+        facts["cs_i = Some(x) ? x : fresh"] = ccan[0] == "V" and ccan[1][0] == "ITE" and contains_term(ccan[1], opts) and contains_head(ccan[1], "rand")
         bcs = [a for a in S.alg.poly(bfr).atoms() if a[0] == "rand" and a[1] == "scalar" and a not in bfs]
         facts["bfr = c*bf + bcs"] = len(bcs) == 1 and len(bfs) == 1 and S.same(bfr, ("add", ("mul", c, bfs[0]), bcs[0]))
         if len(bcs) == 1:
